@@ -2,6 +2,7 @@
 
 pub mod num;
 pub mod linalg;
+pub mod gs;
 
 pub fn selftest() -> bool {
     true
